@@ -127,7 +127,8 @@ def run(chk):
         ok = bool(resets) and g.dominated_by_nodes(tn, [g.node_of(r) for r in resets])
         chk.ob("O12.1", "response list reset before transition()", ok, tc, f"resets={len(resets)}")
         # expected status is checked
-        ok = any(pol and isinstance(t, ast.Call) and last_attr(t.func) == "is_current_status_expected" for t, pol in guards(tc))
+        from sa import pat as _pat121
+        ok = any(isinstance(f_, ast.Call) and last_attr(f_.func) == "is_current_status_expected" for f_ in _pat121.fact_nodes(tc))  # a fact: either arm, guard clause or if/else
         chk.ob("O12.1", "transition() only in the expected status", ok, tc, "guarded by is_current_status_expected" if ok else "status is not checked")
 
     # ---- O12.1b who constructs EngineStarted / EngineStopped -------------------------------------------
